@@ -20,7 +20,8 @@ ID = "C08"
 REAL = ["Resampler.resample", "_ResamplingHelper (add_sample, _update_source_sample_period, _update_buffer_len, resample)",
         "_StreamingHelper._receive_samples", "frequenz.channels Timer"]
 STUB = ["sources (async iterators fed by the harness)", "sinks", "recording resampling function (public config hook)"]
-RULE = ("one run = one Resampler with drawn period, max_data_age_in_periods, initial/warn/max buffer length and 1-3 sources; "
+RULE = ("one run = one Resampler with drawn period (0.1-2 s), max_data_age_in_periods, initial/warn/max buffer length and 1-3 sources; "
+        "equal timestamps with descending values; "
         "each source is a time-ordered stream with drawn inter-arrival gaps (bursts, silences longer than the max age, up- and "
         "down-sampling), stamps = arrival time / in the past / in the future / exactly on a tick / exactly T - max_age*period, "
         "values valid / None / NaN; non-trivial = some tick had a boundary-stamped, future-stamped or invalid sample or the "
